@@ -43,12 +43,12 @@ def build(prog):
     return ref, text, M
 
 
-def fresh(M, ref, n, bases, shift=0):
+def fresh(M, ref, n, bases, shift=0, origin=100):
     data = R.make_data(ref.names, n, bases)
     if shift:
         for k in data:
             data[k] = data[k] + 0.0
-    return M(range(100, 100 + n), **{k: v.copy() for k, v in data.items()}), data
+    return M(range(origin, origin + n), **{k: v.copy() for k, v in data.items()}), data
 
 
 def assigned_cells(ref, T):
@@ -170,14 +170,17 @@ def check_solve_range(case):
     n = L + K + 1 + case.get('extra', 1)
     bases = case.get('bases') or [[1.0, 2.0, 0.5, 4.0]]
     res.nontrivial = L + K >= 1
+    origin = case.get('origin', 100)      # labels origin..origin+n-1: 0 and negative labels are ordinary period labels
+    if origin <= 0:
+        res.tag('span-with-label-0')
     for p0 in [None] + list(range(L, n - K)):
         for p1 in [None] + list(range(L, n - K)):
-            m, data = fresh(M, ref, n, bases)
+            m, data = fresh(M, ref, n, bases, origin=origin)
             kw = dict(SOLVE_KW)
             if p0 is not None:
-                kw['start'] = 100 + p0
+                kw['start'] = origin + p0
             if p1 is not None:
-                kw['end'] = 100 + p1
+                kw['end'] = origin + p1
             out = R.quiet_call(attempt, m.solve, **kw)
             a = L if p0 is None else p0
             b = n - 1 - K if p1 is None else p1
@@ -185,7 +188,7 @@ def check_solve_range(case):
             cells = set()
             for T in periods:
                 cells |= assigned_cells(ref, T)
-            detail = f'{text!r} LAGS={L} LEADS={K} n={n} solve(start={p0}, end={p1})'
+            detail = f'{text!r} LAGS={L} LEADS={K} n={n} span from {origin}: solve(start={None if p0 is None else origin + p0}, end={None if p1 is None else origin + p1})'
             if out.ok:
                 if list(out.value[1]) != sorted(periods):
                     res.fail('solve/periods-visited', f'{detail}: visited {list(out.value[1])}, expected {sorted(periods)}')
@@ -293,7 +296,7 @@ def strategy(**kw):
         return st.fixed_dictionaries({
             'prog': G.programs(**args),
             'extra': st.integers(0, 4),
-            'victim': st.integers(0, 2),
+            'victim': st.integers(0, 2), 'origin': st.sampled_from([100, 0, 0, -1, -2]),
             'bases': st.lists(st.lists(st.sampled_from([1.0, 2.0, 0.5, 4.0, 3.0, 0.25, 1.5]), min_size=2, max_size=4), min_size=1, max_size=3),
         })
     return make
